@@ -3,5 +3,5 @@ From CrabV Require Import Fix.Wto Fix.Engine Fix.Kleene Fix.EngineFS.
 Extraction Language OCaml.
 Set Extraction KeepSingleton.
 Extraction "../ocaml/gen/fixfs_model.ml"
-  Wto.build Wto.nesting Engine.run Engine.e_pre Engine.e_post Kleene.lfp Kleene.mkF EngineFS.fs_engine
+  Wto.build Wto.nesting Engine.run Engine.e_pre Engine.e_post Kleene.lfp Kleene.mkF EngineFS.fs_engine EngineFS.fs_certified
   BinNums.Z BinNums.N.
